@@ -295,3 +295,86 @@ Proof.
     { rewrite !inject_Z_plus. change (inject_Z 1) with 1. lra. }
     rewrite <- Zlt_Qlt in L. lia.
 Qed.
+
+(* ---------------------------------------------------------------- identity rotation: the whole support is present *)
+
+Lemma Qfloor_plus_int (x : Q) (n : Z) : Qfloor (x + inject_Z n) = (Qfloor x + n)%Z.
+Proof.
+  pose proof (Qfloor_le x) as A1. pose proof (Qlt_floor x) as A2.
+  pose proof (Qfloor_le (x + inject_Z n)) as B1. pose proof (Qlt_floor (x + inject_Z n)) as B2.
+  rewrite inject_Z_plus in A2, B2. change (inject_Z 1) with 1 in *.
+  assert (L1 : inject_Z (Qfloor (x + inject_Z n)) < inject_Z (Qfloor x + n + 1)).
+  { rewrite !inject_Z_plus. change (inject_Z 1) with 1. lra. }
+  assert (L2 : inject_Z (Qfloor x + n) < inject_Z (Qfloor (x + inject_Z n) + 1)).
+  { rewrite !inject_Z_plus. change (inject_Z 1) with 1. lra. }
+  rewrite <- Zlt_Qlt in L1, L2. lia.
+Qed.
+
+Lemma ray_ks_In w k : (0 <= w)%Z -> In k (ray_ks w) <-> (- w <= k <= w)%Z.
+Proof.
+  intros Hw. unfold ray_ks. rewrite in_map_iff. split.
+  - intros [i [<- Hi]]. apply zrange_In in Hi. lia.
+  - intros H. exists (k + w)%Z. split; [lia|]. apply zrange_In. lia.
+Qed.
+
+(* under the identity rotation the candidates contain the whole window of voxels on the line through the pixel *)
+Lemma cands_identity_line g a b c0 y0 x0 z : rot g = I3 -> (0 <= width g)%Z ->
+  b == inject_Z y0 -> c0 == inject_Z x0 ->
+  (Qfloor a - width g <= z <= Qfloor a + width g + 1)%Z ->
+  In (z, y0, x0) (cands g (a, b, c0)).
+Proof.
+  intros Hrot Hw Hb Hc Hz. unfold cands. rewrite Hrot. apply in_flat_map.
+  assert (Ey : forall k : Z, Qfloor (b + (0 * inject_Z k + 1 * 0 + 0 * 0) + inject_Z 0) = y0).
+  { intros k. rewrite (Qfloor_comp _ (inject_Z y0)); [apply Qfloor_Z|]. rewrite Hb. change (inject_Z 0) with 0. ring. }
+  assert (Ex : forall k : Z, Qfloor (c0 + (0 * inject_Z k + 0 * 0 + 1 * 0) + inject_Z 0) = x0).
+  { intros k. rewrite (Qfloor_comp _ (inject_Z x0)); [apply Qfloor_Z|]. rewrite Hc. change (inject_Z 0) with 0. ring. }
+  assert (Ez : forall k oz : Z, Qfloor (a + (1 * inject_Z k + 0 * 0 + 0 * 0) + inject_Z oz) = (Qfloor a + k + oz)%Z).
+  { intros k oz. rewrite (Qfloor_comp _ (a + inject_Z (k + oz))).
+    - rewrite Qfloor_plus_int. lia.
+    - rewrite inject_Z_plus. ring. }
+  destruct (Z_le_gt_dec z (Qfloor a + width g)) as [Hle|Hgt].
+  - exists (0, 0, 0)%Z. split; [cbn; tauto|]. apply in_map_iff. exists (z - Qfloor a)%Z. split.
+    + cbn [I3 mv dot3 vadd vofz vfloor]. rewrite Ey, Ex, Ez. f_equal. f_equal. lia.
+    + apply ray_ks_In; lia.
+  - exists (1, 0, 0)%Z. split; [cbn; tauto|]. apply in_map_iff. exists (width g). split.
+    + cbn [I3 mv dot3 vadd vofz vfloor]. rewrite Ey, Ex, Ez. f_equal. f_equal. lia.
+    + apply ray_ks_In; lia.
+Qed.
+
+(* hence every in-volume voxel of that window has an entry in the row (with the weight given by row_identity) *)
+Lemma row_identity_complete g r c z : rot g = I3 -> (0 <= width g)%Z ->
+  inside g (z, pix_y g r, pix_x g c) = true ->
+  (forall a, a == line_z g -> (Qfloor a - width g <= z <= Qfloor a + width g + 1)%Z) ->
+  exists w, In ((z, pix_y g r, pix_x g c), w) (row g r c).
+Proof.
+  intros Hrot Hw Hin Hz. destruct (pixel_rot_identity g r c Hrot) as [a [b [c0 [Epr [Ha [Hb Hc]]]]]].
+  unfold row. rewrite Epr.
+  assert (Hc' : In (z, pix_y g r, pix_x g c) (cands g (a, b, c0))).
+  { apply (cands_identity_line g a b c0 (pix_y g r) (pix_x g c) z Hrot Hw Hb Hc). apply Hz. exact Ha. }
+  assert (Hd : In (z, pix_y g r, pix_x g c) (dedup (filter (inside g) (cands g (a, b, c0))))).
+  { apply dedup_In. apply filter_In. split; assumption. }
+  unfold coalesced. eexists. apply in_map_iff. eexists (_, _). split; [reflexivity|].
+  apply in_map_iff. exists (z, pix_y g r, pix_x g c). split; [reflexivity|exact Hd].
+Qed.
+
+(* THEOREM (identity rotation, rectangular profile of half-width h <= width): every in-volume voxel of the column within
+   distance h of the slice position has an entry, and all these entries carry the same weight fraction_in_view/(s+1e-6) *)
+
+Theorem rect_identity_taps g r c h : rot g = I3 -> prof g = rect h -> 0 <= h -> h <= inject_Z (width g) ->
+  forall z, inside g (z, pix_y g r, pix_x g c) = true -> Qabs (line_z g - inject_Z z) <= h ->
+  exists w, In ((z, pix_y g r, pix_x g c), w) (row g r c)
+            /\ w == fraction_in_view g (pixel_rot g r c) / (raw_sum g (pixel_rot g r c) + eps).
+Proof.
+  intros Hrot Hprof Hh0 Hhw z Hin Hd.
+  assert (Hw : (0 <= width g)%Z).
+  { assert (L : inject_Z 0 <= inject_Z (width g)) by (change (inject_Z 0) with 0; lra). rewrite <- Zle_Qle in L. exact L. }
+  assert (Hprop : Proper (Qeq ==> Qeq) (prof g)) by (rewrite Hprof; apply rect_comp).
+  destruct (row_identity_complete g r c z Hrot Hw Hin) as [w Hwin].
+  { intros a Ha. apply (support_in_window a h); [exact Hhw|]. rewrite Ha. exact Hd. }
+  exists w. split; [exact Hwin|].
+  destruct (row_identity g r c Hrot Hprop) as [a [Ha Hall]].
+  rewrite (Hall _ _ _ _ Hwin). rewrite !Z.eqb_refl. cbn [andb]. rewrite Hprof. unfold rect.
+  assert (E : Qle_bool (Qabs (a - inject_Z z)) h = true).
+  { apply Qle_bool_iff. rewrite Ha. exact Hd. }
+  rewrite E. ring.
+Qed.
